@@ -64,6 +64,16 @@ Fixpoint mcreated (duration : Z) (s : mstate) (h : list mevent) : list (Z * epoc
       end
   end.
 
+(* contracts/liquidity_hub/epoch-manager/src/queries.rs::query_epoch (QueryMsg::Epoch { id }): the current epoch when the id is
+   the current one, otherwise the start is derived: current start - duration * (current id saturating_sub id).
+   `duration.u64() * difference` is a plain u64 product and `minus_nanos` a strict subtraction (both abort). *)
+Definition mquery (duration : Z) (s : mstate) (id : Z) : outcome epoch :=
+  let cur := m_epoch s in
+  if e_id cur =? id then Ok cur
+  else do off <- pmul P64 duration (Z.max 0 (e_id cur - id));
+       do st <- psub (e_start cur) off;
+       Ok (mkEpoch id st).
+
 (* ---- fee distributor clock --------------------------------------------------------------------- *)
 (* current epoch = last of EPOCHS, Epoch::default() = (0, 0) when none. `collector_ok` = the ForwardFees
    submessage and the reply succeed (oracle here; Distributor.v / Pipeline.v model them). *)
